@@ -723,7 +723,9 @@ Definition chk_ttl_row (s : store) (reopen_ms : N) (o : ttl_obs) : bool :=
                   (t <=? after)                                           (* readable at every instant before T *)
                   && (to_last_present o <=? before)                       (* and it does not come back *)
                   && (before <=? N.max t reopen_ms + 3000)                (* tombstoned within 3 s after T (or after the reopen) *)
-                  && to_del_event o                                       (* with a deletion event *)
+                  && (to_del_event o || (t <=? reopen_ms))                (* with a deletion event - which the feed opened after a
+                                                                             reopen cannot have seen if the deadline had passed by then: OpenBucket arms the
+                                                                             timer, which fires at once *)
               end
           else true
       | None => true
